@@ -179,7 +179,7 @@ impl AuthRow {
             extended: self.ext != "no",
             tls_domain: text(&self.tls),
             client_address: ip_of(&self.client),
-            user_agent: if self.ext == "e4ua" { Some(text(&self.ua)) } else { None },
+            user_agent: if self.ext == "e4ua" || self.ext == "e4t" { Some(text(&self.ua)) } else { None },
         }
     }
 
@@ -379,6 +379,30 @@ struct Beh<'a> {
     down: Vec<u8>,
     /// what the client uploads once the tunnel is established
     upload: Vec<u8>,
+    /// tunnel level: the responses the specification accepts for the request (status, X-Warning code, challenge)
+    http: Vec<(u16, u16, bool)>,
+    /// tunnel level, a multiplexer request: which one ("udp" / "icmp")
+    mux: String,
+    /// the upstream does not take the connection
+    refuse: bool,
+    /// the upstream falls silent after its octets, keeping the connection open
+    silent: bool,
+    /// the datagrams the client sends once a UDP multiplexer request is accepted
+    flows: Vec<Flow>,
+}
+
+/// One datagram of the client on an accepted UDP multiplexer, as the specification describes it
+struct Flow {
+    /// the PROTOCOL.md 6.3 record the client writes
+    record: Vec<u8>,
+    /// it opens an association: the forwarder makes a handshake of its own for it
+    opens: bool,
+    /// what the server says in that handshake, the messages it must receive
+    stream: Vec<u8>,
+    emit: Vec<String>,
+    relay_port_at: usize,
+    /// the datagram the relay must receive
+    relayed: Vec<u8>,
 }
 
 impl<'a> Beh<'a> {
@@ -402,7 +426,32 @@ impl<'a> Beh<'a> {
             tun: s["tun"].as_bool().unwrap(),
             down: bytes_of(&v["down"]),
             upload: bytes_of(&v["upload"]),
+            http: v["http"].as_array().map(|a| a.iter().map(|h| (h["status"].as_u64().unwrap() as u16, h["warn"].as_u64().unwrap() as u16, h["challenge"].as_bool().unwrap())).collect()).unwrap_or_default(),
+            mux: s["mux"].as_str().unwrap_or("udp").to_string(),
+            refuse: s["refuse"].as_bool().unwrap_or(false),
+            silent: s["silent"].as_bool().unwrap_or(false),
+            flows: v["flows"].as_array().map(|a| a.iter().map(|f| Flow {
+                record: bytes_of(&f["record"]),
+                opens: f["opens"].as_bool().unwrap(),
+                stream: bytes_of(&f["stream"]),
+                emit: strs(&f["emit"]),
+                relay_port_at: f["relayPortAt"].as_u64().unwrap() as usize,
+                relayed: bytes_of(&f["relayed"]),
+            }).collect()).unwrap_or_default(),
         }
+    }
+
+    /// the octets of the messages `names` (and the range the specification leaves free: the port of the client's own UDP socket)
+    fn messages(&self, names: &[String]) -> (Vec<u8>, Option<(usize, usize)>) {
+        let mut out = Vec::new();
+        let mut wild = None;
+        for name in names {
+            out.extend_from_slice(self.msg(name));
+            if name == "request" && self.dest.wild_port {
+                wild = Some((out.len() - 2, out.len()));
+            }
+        }
+        (out, wild)
     }
 
     /// what the SOCKS5 server must have received when the request is over: the messages, then the upload
@@ -441,26 +490,31 @@ impl<'a> Beh<'a> {
     /// destination class, how far the specification's dialogue goes and what it accepts —
     /// without the server's individual octets and without the chunking
     fn class(&self) -> String {
-        format!("{}:{}:{}:{}", self.auth.class(), self.dest.class(),
-                if self.emit.is_empty() { "silent".to_string() } else { self.emit.join("+") },
+        format!("{}:{}{}:{}:{}", self.auth.class(), self.dest.class(), if self.mux != "udp" { format!("({})", self.mux) } else { String::new() },
+                if self.refuse { "refused".to_string() } else if self.silent { format!("{}+silence", self.emit.join("+")) } else if self.emit.is_empty() { "silent".to_string() } else { self.emit.join("+") },
                 self.accept.iter().cloned().collect::<Vec<_>>().join("|"))
     }
 
     /// the scenario's own identity (for de-duplication and the non-trivial count)
     fn ident(&self) -> String {
         let s = &self.v["scn"];
-        format!("{}|{}|{}|{}|{}|{}", key_of(&s["auth"]), s["ext"], s["dest"], hex(&self.stream), s["exact"], s["trunc"])
+        format!("{}|{}|{}|{}|{}|{}{}", key_of(&s["auth"]), s["ext"], s["dest"], hex(&self.stream), s["exact"], s["trunc"],
+                if self.refuse || self.silent || self.mux != "udp" || !self.flows.is_empty() { format!("|{}|{}|{}|{}", self.mux, self.refuse, self.silent, self.flows.len()) } else { String::new() })
     }
 
     fn stream_for(&self, relay_port: u16) -> Vec<u8> {
-        let mut s = self.stream.clone();
-        if self.relay_port_at > 0 && self.relay_port_at < s.len() {
-            let p = relay_port.to_be_bytes();
-            s[self.relay_port_at - 1] = p[0];
-            s[self.relay_port_at] = p[1];
-        }
-        s
+        patch_port(&self.stream, self.relay_port_at, relay_port)
     }
+}
+
+fn patch_port(stream: &[u8], at: usize, relay_port: u16) -> Vec<u8> {
+    let mut s = stream.to_vec();
+    if at > 0 && at < s.len() {
+        let p = relay_port.to_be_bytes();
+        s[at - 1] = p[0];
+        s[at] = p[1];
+    }
+    s
 }
 
 fn same_written(got: &[u8], want: &[u8], wild: Option<(usize, usize)>) -> bool {
@@ -616,6 +670,11 @@ fn main() {
         rep.eval();
         let class = b.class();
         logcap::set_scenario(&class);
+        // an upstream that does not take the connection: there is no transport to script; one that falls
+        // silent: the dialogue does not end by itself, the tunnel's establishment timer ends it (tunnel level only)
+        if b.refuse || b.silent {
+            continue;
+        }
         let hist = b.v["hist"].as_array().unwrap();
         let events: Vec<Ev> = hist.iter().map(|h| if h["ev"] == "eof" { Ev::Eof } else { Ev::Deliver(h["n"].as_u64().unwrap() as usize) }).collect();
         let stream = b.stream_for(relay_port);
@@ -749,7 +808,7 @@ fn main() {
 
     // ---- the real Tunnel + HTTP codecs with the SOCKS5 forwarder ---------------------------
     phase("forwarder level done");
-    tunnel_level(&rt, &behs, relay_port, &mut rep);
+    tunnel_level(&rt, &behs, &relay, &mut rep);
     phase("tunnel level done");
 
     // ---- RFC 1928 section 7 through a real association ---------------------------------
@@ -829,7 +888,7 @@ fn forwarder_level(rt: &tokio::runtime::Runtime, behs: &[Beh], rep: &mut Report,
         // octets it has not read yet. After success the pipe's source is read to the end of the
         // stream, so a destination behind the server may have sent anything.
         let success = b.accept.len() == 1 && b.accept.contains("Established");
-        if !b.chunks.is_empty() || b.dest.wild_port || !(b.used == b.stream.len() || (b.tun && success)) || n >= cap {
+        if !b.chunks.is_empty() || b.dest.wild_port || b.refuse || b.silent || !(b.used == b.stream.len() || (b.tun && success)) || n >= cap {
             continue;
         }
         let class = b.class();
@@ -933,9 +992,12 @@ struct Serve {
     script: Vec<u8>,
     /// octets the client side is expected to send in all (the server ends its side once it has them)
     want_len: usize,
+    /// report as soon as those octets are there and keep the connection open (the control connection
+    /// of a UDP association lives as long as the association) until the next job that is not detached
+    detach: bool,
 }
 
-#[derive(Default)]
+#[derive(Default, Debug)]
 struct Served {
     connected: bool,
     got: Vec<u8>,
@@ -948,10 +1010,25 @@ struct Served {
 /// (replies and the destination's octets: TCP is a byte stream, how it is cut is not the
 /// client's business), ends its side once the client's octets are there, and reads to the end.
 fn scripted_socks_server(listener: std::net::TcpListener, jobs: std::sync::mpsc::Receiver<Serve>, done: std::sync::mpsc::Sender<Served>,
-                         cancel: Arc<std::sync::atomic::AtomicBool>) {
+                         cancel: Arc<std::sync::atomic::AtomicBool>, ready: std::sync::mpsc::Sender<usize>) {
     listener.set_nonblocking(true).expect("nonblocking listener");
     let mut timeouts = 0u32;
+    let mut parked: Vec<std::net::TcpStream> = Vec::new();
     while let Ok(job) = jobs.recv() {
+        if !job.detach {
+            parked.clear();
+        }
+        // A job is handed over before the step that makes the endpoint connect: a connection that is already
+        // waiting was made for an earlier scenario (a step that was given up, a retry) and is not this job's.
+        // The driver goes on once it is told that the listener is clean.
+        let mut stale = 0usize;
+        while let Ok((c, _)) = listener.accept() {
+            drop(c);
+            stale += 1;
+        }
+        if ready.send(stale).is_err() {
+            break;
+        }
         let conn = loop {
             match listener.accept() {
                 Ok((c, _)) => break Some(c),
@@ -1003,6 +1080,16 @@ fn scripted_socks_server(listener: std::net::TcpListener, jobs: std::sync::mpsc:
                 }
             }
         }
+        if job.detach {
+            if r.timed_out {
+                timeouts += 1;
+            }
+            parked.push(c);
+            if done.send(r).is_err() {
+                break;
+            }
+            continue;
+        }
         let _ = c.shutdown(std::net::Shutdown::Write);
         while !ended {
             match c.read(&mut buf) {
@@ -1035,13 +1122,128 @@ struct TunObs {
     /// the client saw the end of the stream
     ended: bool,
     note: String,
+    /// X-Warning code of the response (0: none), and whether it carries a Basic challenge
+    warn: u16,
+    challenge: bool,
+    /// a session with flows: what the scripted server saw of the request's own handshake, and of every flow's
+    probe_served: Option<Served>,
+    flow_served: Vec<Option<Served>>,
+    /// per datagram of the client: what arrived at the relay
+    flow_relayed: Vec<Option<Vec<u8>>>,
+}
+
+/// The flows of an accepted UDP multiplexer request: the records the client writes, and for a
+/// flow that opens an association the job of the scripted server
+struct Session<'a> {
+    flows: Vec<(Vec<u8>, Option<(Vec<u8>, usize)>)>,
+    job_tx: &'a std::sync::mpsc::Sender<Serve>,
+    done_rx: &'a std::sync::mpsc::Receiver<Served>,
+    cancel: &'a std::sync::atomic::AtomicBool,
+    /// the request has a handshake of its own (its credentials are probed)
+    probed: bool,
+    /// the UDP relay the scripted server's replies name
+    relay: &'a std::net::UdpSocket,
+    /// the scripted server has taken a job (and how many left-over connections it dropped first)
+    ready_rx: &'a std::sync::mpsc::Receiver<usize>,
+    stale: &'a std::cell::Cell<usize>,
+}
+
+/// Wait (without blocking the runtime) for a datagram at the relay
+async fn wait_relayed(relay: &std::net::UdpSocket, limit: Duration) -> Option<Vec<u8>> {
+    let t0 = std::time::Instant::now();
+    let mut buf = vec![0u8; 70000];
+    loop {
+        if let Ok(n) = relay.recv(&mut buf) {
+            return Some(buf[..n].to_vec());
+        }
+        if t0.elapsed() > limit {
+            return None;
+        }
+        tokio::time::sleep(Duration::from_millis(1)).await;
+    }
+}
+
+/// Wait (without blocking the runtime the endpoint runs on) for the scripted server's report
+async fn wait_served(done_rx: &std::sync::mpsc::Receiver<Served>, limit: Duration) -> Option<Served> {
+    let t0 = std::time::Instant::now();
+    loop {
+        if let Ok(s) = done_rx.try_recv() {
+            return Some(s);
+        }
+        if t0.elapsed() > limit {
+            return None;
+        }
+        tokio::time::sleep(Duration::from_millis(1)).await;
+    }
+}
+
+/// the client's side of an accepted multiplexer stream
+enum Up<'a> {
+    H1(&'a mut tokio::io::DuplexStream),
+    H2(&'a mut h2::SendStream<Bytes>),
+}
+
+impl Up<'_> {
+    async fn write(&mut self, rec: Vec<u8>) -> bool {
+        match self {
+            Up::H1(c) => c.write_all(&rec).await.is_ok() && c.flush().await.is_ok(),
+            Up::H2(u) => u.send_data(Bytes::from(rec), false).is_ok(),
+        }
+    }
+}
+
+impl Session<'_> {
+    /// After the 200: the request's own handshake is over; then datagram by datagram
+    async fn drive(&self, obs: &mut TunObs, mut up: Up<'_>) {
+        if self.probed {
+            obs.probe_served = wait_served(self.done_rx, Duration::from_secs(10)).await;
+        }
+        if self.probed && obs.probe_served.is_none() {
+            obs.note = "the scripted server did not see the end of the request's own handshake".into();
+            return;
+        }
+        let _ = self.relay.set_nonblocking(true);
+        let mut scratch = [0u8; 2048];
+        while self.relay.recv(&mut scratch).is_ok() {}
+        for (record, job) in &self.flows {
+            if let Some((script, want_len)) = job {
+                self.cancel.store(false, Ordering::SeqCst);
+                let _ = self.job_tx.send(Serve { script: script.clone(), want_len: *want_len, detach: true });
+                // (the server thread needs no help from this runtime: waiting for it here is safe)
+                if let Ok(n) = self.ready_rx.recv_timeout(Duration::from_secs(30)) {
+                    self.stale.set(self.stale.get() + n);
+                }
+            }
+            if !up.write(record.clone()).await {
+                obs.note = "the multiplexer stream did not take the client's datagram".into();
+            }
+            // (let the endpoint work even when no handshake is expected for this datagram)
+            tokio::time::sleep(Duration::from_millis(2)).await;
+            if job.is_some() {
+                let mut got = wait_served(self.done_rx, Duration::from_secs(8)).await;
+                if got.is_none() {
+                    // nothing connected: release the server from waiting, and take its (empty) report
+                    self.cancel.store(true, Ordering::SeqCst);
+                    got = wait_served(self.done_rx, Duration::from_secs(10)).await;
+                }
+                obs.flow_served.push(got);
+            } else {
+                obs.flow_served.push(None);
+            }
+            // the datagram itself: through the association to the relay
+            let opened = job.is_none() || obs.flow_served.last().and_then(|x| x.as_ref()).map(|x| x.connected).unwrap_or(false);
+            obs.flow_relayed.push(if opened { wait_relayed(self.relay, Duration::from_secs(4)).await } else { None });
+        }
+        let _ = self.relay.set_nonblocking(false);
+    }
 }
 
 const STEP: Duration = Duration::from_secs(15);
 
 #[allow(clippy::too_many_arguments)]
 async fn tunnel_request(core: &'static Core, proto: VProto, peer: SocketAddr, server_name: String, sni: Option<String>,
-                        authority: String, basic: Option<String>, upload: Vec<u8>, relay: bool) -> TunObs {
+                        authority: String, basic: Option<String>, upload: Vec<u8>, relay: bool, session: Option<&Session<'_>>, patience: Duration, user_agent: Option<String>) -> TunObs {
+    let step = patience;
     let mut obs = TunObs::default();
     let (mut cio, sio) = tokio::io::duplex(1 << 20);
     let task = tokio::spawn(async move {
@@ -1053,6 +1255,9 @@ async fn tunnel_request(core: &'static Core, proto: VProto, peer: SocketAddr, se
             if let Some(x) = &basic {
                 head += &format!("Proxy-Authorization: Basic {}\r\n", x);
             }
+            if let Some(x) = &user_agent {
+                head += &format!("User-Agent: {}\r\n", x);
+            }
             head += "\r\n";
             if cio.write_all(head.as_bytes()).await.is_err() {
                 obs.note = "the endpoint closed before the request was written".into();
@@ -1061,23 +1266,34 @@ async fn tunnel_request(core: &'static Core, proto: VProto, peer: SocketAddr, se
             let mut tmp = [0u8; 16384];
             let mut head_end = None;
             while head_end.is_none() && !obs.ended {
-                match tokio::time::timeout(STEP, cio.read(&mut tmp)).await {
+                match tokio::time::timeout(step, cio.read(&mut tmp)).await {
                     Ok(Ok(0)) | Ok(Err(_)) => obs.ended = true,
                     Ok(Ok(n)) => buf.extend_from_slice(&tmp[..n]),
                     Err(_) => {
-                        obs.note = "no response head within 15 s".into();
+                        obs.note = format!("no response head within {:?}", step);
                         break;
                     }
                 }
                 head_end = buf.windows(4).position(|w| w == b"\r\n\r\n").map(|p| p + 4);
             }
             if let Some(he) = head_end {
-                obs.status = std::str::from_utf8(&buf[..he]).ok().and_then(|h| h.split(' ').nth(1).and_then(|x| x.parse().ok()));
+                let head_text = String::from_utf8_lossy(&buf[..he]).to_string();
+                obs.status = head_text.split(' ').nth(1).and_then(|x| x.parse().ok());
+                for line in head_text.split("\r\n").skip(1) {
+                    if let Some((n, v)) = line.split_once(':') {
+                        response_header(&mut obs, n.trim(), v.trim());
+                    }
+                }
+                if obs.status == Some(200) && !relay {
+                    if let Some(sess) = session {
+                        sess.drive(&mut obs, Up::H1(&mut cio)).await;
+                    }
+                }
                 if obs.status == Some(200) && relay {
                     let _ = cio.write_all(&upload).await;
                     let _ = cio.flush().await;
                     while !obs.ended {
-                        match tokio::time::timeout(STEP, cio.read(&mut tmp)).await {
+                        match tokio::time::timeout(step, cio.read(&mut tmp)).await {
                             Ok(Ok(0)) | Ok(Err(_)) => obs.ended = true,
                             Ok(Ok(n)) => buf.extend_from_slice(&tmp[..n]),
                             Err(_) => {
@@ -1093,7 +1309,7 @@ async fn tunnel_request(core: &'static Core, proto: VProto, peer: SocketAddr, se
         }
         VProto::Http2 => {
             let r: Result<(), String> = async {
-                let (mut send, conn) = tokio::time::timeout(STEP, h2::client::handshake(cio)).await.map_err(|_| "h2 handshake timed out".to_string())?.map_err(|e| e.to_string())?;
+                let (mut send, conn) = tokio::time::timeout(step, h2::client::handshake(cio)).await.map_err(|_| "h2 handshake timed out".to_string())?.map_err(|e| e.to_string())?;
                 let conn_task = tokio::spawn(async move {
                     let _ = conn.await;
                 });
@@ -1101,18 +1317,29 @@ async fn tunnel_request(core: &'static Core, proto: VProto, peer: SocketAddr, se
                 if let Some(x) = &basic {
                     rb = rb.header("proxy-authorization", format!("Basic {}", x));
                 }
+                if let Some(x) = &user_agent {
+                    rb = rb.header("user-agent", x.as_str());
+                }
                 let req = rb.body(()).map_err(|e| format!("request: {}", e))?;
                 std::future::poll_fn(|cx| send.poll_ready(cx)).await.map_err(|e| e.to_string())?;
                 let (resp, mut up) = send.send_request(req, false).map_err(|e| e.to_string())?;
-                let resp = tokio::time::timeout(STEP, resp).await.map_err(|_| "no response within 15 s".to_string())?.map_err(|e| format!("response: {}", e))?;
+                let resp = tokio::time::timeout(step, resp).await.map_err(|_| format!("no response within {:?}", step))?.map_err(|e| format!("response: {}", e))?;
                 obs.status = Some(resp.status().as_u16());
+                for (n, v) in resp.headers() {
+                    response_header(&mut obs, n.as_str(), &String::from_utf8_lossy(v.as_bytes()));
+                }
+                if resp.status() == 200 && !relay {
+                    if let Some(sess) = session {
+                        sess.drive(&mut obs, Up::H2(&mut up)).await;
+                    }
+                }
                 if resp.status() == 200 && relay {
                     if !upload.is_empty() {
                         up.send_data(Bytes::from(upload.clone()), false).map_err(|e| e.to_string())?;
                     }
                     let mut body = resp.into_body();
                     loop {
-                        match tokio::time::timeout(STEP, body.data()).await {
+                        match tokio::time::timeout(step, body.data()).await {
                             Ok(Some(Ok(ch))) => {
                                 let _ = body.flow_control().release_capacity(ch.len());
                                 obs.down.extend_from_slice(&ch);
@@ -1151,6 +1378,15 @@ async fn tunnel_request(core: &'static Core, proto: VProto, peer: SocketAddr, se
     obs
 }
 
+/// the headers of the response the specification speaks about
+fn response_header(obs: &mut TunObs, name: &str, value: &str) {
+    if name.eq_ignore_ascii_case("x-warning") {
+        obs.warn = value.split(|c: char| !c.is_ascii_digit()).next().and_then(|x| x.parse().ok()).unwrap_or(999);
+    } else if name.eq_ignore_ascii_case("proxy-authenticate") {
+        obs.challenge = value.to_ascii_lowercase().starts_with("basic");
+    }
+}
+
 /// how the HTTP request names the destination, when it can
 fn authority_of(d: &DestRow) -> Option<String> {
     if d.cmd == 3 {
@@ -1165,19 +1401,26 @@ fn authority_of(d: &DestRow) -> Option<String> {
     Some(format!("{}:{}", text(&d.addr), d.port))
 }
 
-fn tunnel_level(rt: &tokio::runtime::Runtime, behs: &[Beh], relay_port: u16, rep: &mut Report) {
+fn tunnel_level(rt: &tokio::runtime::Runtime, behs: &[Beh], relay: &std::net::UdpSocket, rep: &mut Report) {
+    let relay_port = relay.local_addr().unwrap().port();
     let listener = std::net::TcpListener::bind("127.0.0.1:0").expect("listener");
     let addr = listener.local_addr().unwrap();
     let (job_tx, job_rx) = std::sync::mpsc::channel::<Serve>();
     let (done_tx, done_rx) = std::sync::mpsc::channel::<Served>();
+    let (ready_tx, ready_rx) = std::sync::mpsc::channel::<usize>();
     let cancel = Arc::new(std::sync::atomic::AtomicBool::new(false));
     {
         let cancel = cancel.clone();
-        std::thread::spawn(move || scripted_socks_server(listener, job_rx, done_tx, cancel));
+        std::thread::spawn(move || scripted_socks_server(listener, job_rx, done_tx, cancel, ready_tx));
     }
+    let stale_total = std::cell::Cell::new(0usize);
     // without an authenticator the credentials of a request go to the SOCKS5 server unchecked;
     // SNI credentials are only taken from a connection an authenticator has accepted
-    let mk = |extended: bool, accept_all: bool| -> &'static Core {
+    // an upstream that does not take the connection: nothing listens on tcpmux, and no other process can take the port
+    let closed: SocketAddr = "127.0.0.1:1".parse().unwrap();
+    // (the silent upstream: the establishment timer of these cores is short; real time)
+    let establish = std::cell::Cell::new(Duration::from_secs(30));
+    let mk = |addr: SocketAddr, extended: bool, accept_all: bool| -> &'static Core {
         let settings = Settings::builder()
             .listen_address("127.0.0.1:1").unwrap()
             .listen_protocols(ListenProtocolSettings {
@@ -1189,15 +1432,21 @@ fn tunnel_level(rt: &tokio::runtime::Runtime, behs: &[Beh], relay_port: u16, rep
                 Socks5ForwarderSettings::builder().server_address(addr).unwrap().extended_auth(extended).build().expect("socks settings"),
             ))
             .allow_private_network_connections(true)
+            .connection_establishment_timeout(establish.get())
             .build().expect("settings");
         let authenticator: Option<Arc<dyn Authenticator>> = if accept_all { Some(Arc::new(AcceptAll)) } else { None };
         Box::leak(Box::new(Core::new(settings, authenticator, tunnel_env::hosts_settings(), Shutdown::new()).expect("core")))
     };
     let _g = rt.enter();
-    let cores = [[mk(false, false), mk(false, true)], [mk(true, false), mk(true, true)]];
+    let cores = [[mk(addr, false, false), mk(addr, false, true)], [mk(addr, true, false), mk(addr, true, true)]];
+    let cores_refused = [[mk(closed, false, false), mk(closed, false, true)], [mk(closed, true, false), mk(closed, true, true)]];
+    establish.set(Duration::from_millis(150));
+    let cores_silent = [[mk(addr, false, false), mk(addr, false, true)], [mk(addr, true, false), mk(addr, true, true)]];
     tunnel::set_forwarder(None);
 
     let mut n = 0u64;
+    let mut n_flows = 0u64;
+    let mut n_relayed = 0u64;
     let mut skipped = 0u64;
     let mut too_long = 0u64;
     let mut seen = BTreeSet::new();
@@ -1206,7 +1455,10 @@ fn tunnel_level(rt: &tokio::runtime::Runtime, behs: &[Beh], relay_port: u16, rep
             continue;
         }
         // what HTTP can carry: a destination that is an authority, no User-Agent that is not text
-        let Some(authority) = authority_of(b.dest) else { skipped += 1; continue };
+        let Some(mut authority) = authority_of(b.dest) else { skipped += 1; continue };
+        if b.dest.cmd == 3 && b.mux == "icmp" {
+            authority = "_icmp".to_string();
+        }
         if b.auth.ext == "e4ua" {
             skipped += 1;
             continue;
@@ -1222,15 +1474,16 @@ fn tunnel_level(rt: &tokio::runtime::Runtime, behs: &[Beh], relay_port: u16, rep
             Creds::Basic(x) => (Some(x.clone()), None),
             Creds::Sni(x) => (None, Some(x.clone())),
         };
-        let core = cores[if p.extended { 1 } else { 0 }][if sni.is_some() { 1 } else { 0 }];
+        let core = (if b.refuse { &cores_refused } else if b.silent { &cores_silent } else { &cores })[if p.extended { 1 } else { 0 }][if sni.is_some() { 1 } else { 0 }];
         // a UDP multiplexer request only talks to the SOCKS5 server when there are credentials to check
         let udp = b.dest.wild_port;
-        if udp && basic.is_none() && sni.is_none() {
+        let probed = b.v["probed"].as_bool().unwrap_or(true);
+        if udp && basic.is_none() && sni.is_none() && (probed || b.flows.is_empty()) {
             skipped += 1;
             continue;
         }
-        let expect_ok = b.accept.len() == 1 && (b.accept.contains("Established") || (udp && b.accept.contains("UdpAssociated")));
-        let (want, wild) = b.expected_at_server();
+        let expect_ok = b.accept.len() == 1 && (b.accept.contains("Established") || (udp && b.accept.contains("UdpAssociated") && b.mux == "udp"));
+        let (want, wild) = if probed || !udp { b.expected_at_server() } else { (Vec::new(), None) };
         let stream = b.stream_for(relay_port);
         for proto in [VProto::Http1, VProto::Http2] {
             let pname = if proto == VProto::Http1 { "h1" } else { "h2" };
@@ -1249,17 +1502,36 @@ fn tunnel_level(rt: &tokio::runtime::Runtime, behs: &[Beh], relay_port: u16, rep
             }
             // connections left over from an earlier scenario are not this one's
             cancel.store(false, Ordering::SeqCst);
-            job_tx.send(Serve { script: stream.clone(), want_len: want.len() }).expect("server thread");
+            if !b.refuse && (probed || !udp) {
+                // (a silent upstream keeps the connection open once it has the client's messages)
+                job_tx.send(Serve { script: stream.clone(), want_len: want.len(), detach: b.silent }).expect("server thread");
+                stale_total.set(stale_total.get() + ready_rx.recv_timeout(Duration::from_secs(30)).expect("the scripted server takes the job"));
+            }
+            // the datagrams the client sends once a UDP multiplexer request is accepted, each with the scripted
+            // server's part in the handshake the specification says it opens
+            let session = if b.flows.is_empty() { None } else {
+                Some(Session {
+                    flows: b.flows.iter().map(|f| (f.record.clone(), if f.opens { Some((patch_port(&f.stream, f.relay_port_at, relay_port), b.messages(&f.emit).0.len())) } else { None })).collect(),
+                    job_tx: &job_tx, done_rx: &done_rx, cancel: &cancel, probed, relay, ready_rx: &ready_rx, stale: &stale_total,
+                })
+            };
             let detail = |obs: Value| json!({"kind": "tunnel", "proto": pname, "scn": b.v["scn"], "authority": authority, "stream": short_hex(&b.stream), "x": String::from_utf8_lossy(&b.auth.x),
                                              "expected": {"emit": b.emit, "accept": b.v["accept"], "down": short_hex(&b.down), "upload": b.upload.len()}, "observed": obs});
             let peer = SocketAddr::new(p.client_address, 40000);
             let t0 = std::time::Instant::now();
             let res = guarded(format!("socks5:tun-hang:{}", class), "the tunnel did not return", detail(json!(null)), || {
-                rt.block_on(tunnel_request(core, proto, peer, p.tls_domain.clone(), sni.clone(), authority.clone(), basic.clone(), b.upload.clone(), !udp))
+                rt.block_on(tunnel_request(core, proto, peer, p.tls_domain.clone(), sni.clone(), authority.clone(), basic.clone(), b.upload.clone(), !udp, session.as_ref(),
+                                           // the establishment timer of the silent scenarios is 150 ms; the answer is waited for generously
+                                           if b.silent { Duration::from_secs(6) } else { STEP }, p.user_agent.clone()))
             });
             cancel.store(true, Ordering::SeqCst);
             let t1 = t0.elapsed();
-            let served = done_rx.recv_timeout(Duration::from_secs(30));
+            let mut res = res;
+            let served = match res.as_mut().ok().and_then(|o| o.probe_served.take()) {
+                Some(s) => Ok(s),
+                None if b.refuse || (udp && !probed) => Ok(Served { clean: true, ..Default::default() }),
+                None => done_rx.recv_timeout(Duration::from_secs(30)),
+            };
             if std::env::var_os("C15_TIMES").is_some() && t0.elapsed() > Duration::from_millis(10) {
                 eprintln!("slow {:?}/{:?} {} {} {:?}", t1, t0.elapsed(), pname, class, res.as_ref().map(|o| (o.status, o.ended, o.note.clone())));
             }
@@ -1274,9 +1546,11 @@ fn tunnel_level(rt: &tokio::runtime::Runtime, behs: &[Beh], relay_port: u16, rep
                 rep.note(format!("tunnel level: the scripted server did not report for {}", class));
                 continue;
             };
-            let o = json!({"status": obs.status, "down": short_hex(&obs.down), "ended": obs.ended, "note": obs.note,
+            let o = json!({"status": obs.status, "warn": obs.warn, "challenge": obs.challenge, "down": short_hex(&obs.down), "ended": obs.ended, "note": obs.note,
                            "server": {"connected": served.connected, "received": short_hex(&served.got), "clean": served.clean, "timed_out": served.timed_out}});
-            if served.clean && !same_written(&served.got, &want, wild) {
+            // (a dialogue the establishment timer ends may be cut before the endpoint has said all it says in the specification's dialogue)
+            let cut_short = b.silent && served.got.len() < want.len() && same_written(&served.got, &want[..served.got.len()], wild.map(|w| (w.0.min(served.got.len()), w.1.min(served.got.len()))));
+            if served.clean && !cut_short && !same_written(&served.got, &want, wild) {
                 let msgs = want.len() - if expect_ok && !udp { b.upload.len() } else { 0 };
                 let what = if expect_ok && !udp && served.got.len() >= msgs && same_written(&served.got[..msgs], &want[..msgs], wild) { "tun-up" } else { "tun-emit" };
                 rep.violation_with(format!("socks5:{}:{}", what, class),
@@ -1295,8 +1569,54 @@ fn tunnel_level(rt: &tokio::runtime::Runtime, behs: &[Beh], relay_port: u16, rep
                         format!("the request was answered {} ; the specification accepts {:?}", st, b.accept_req), || detail(o.clone()));
                     continue;
                 }
+                // the response the specification's table gives for the class the dialogue ends in (C10)
+                Some(st) if !b.http.is_empty() && !b.http.contains(&(st, obs.warn, obs.challenge)) => {
+                    rep.violation_with(format!("socks5:tun-response:{}:got{}-{}", class, st, obs.warn),
+                        format!("the request was answered {} with X-Warning code {} {} a Basic challenge; the specification accepts (status, X-Warning code, challenge) {:?} for a request that ends as {:?}",
+                                st, obs.warn, if obs.challenge { "and" } else { "without" }, b.http, b.accept_req), || detail(o.clone()));
+                    continue;
+                }
                 _ => {}
             }
+            // every handshake the forwarder makes for the client's flows says the session's credentials as the request's own did
+            for (fi, f) in b.flows.iter().enumerate() {
+                if !f.opens {
+                    continue;
+                }
+                rep.eval();
+                let (fwant, fwild) = b.messages(&f.emit);
+                let fdetail = |fs: Value| json!({"kind": "tunnel-flow", "proto": pname, "scn": b.v["scn"], "flow": fi, "x": String::from_utf8_lossy(&b.auth.x),
+                                                 "expected": {"emit": f.emit, "octets": short_hex(&fwant)}, "observed": fs, "request": o.clone()});
+                match obs.flow_served.get(fi).and_then(|x| x.as_ref()) {
+                    Some(fs) if fs.connected => {
+                        if !same_written(&fs.got, &fwant, fwild) {
+                            rep.violation_with(format!("socks5:tun-flow-emit:{}", class),
+                                format!("for the client's datagram {} the SOCKS5 server received the handshake {} ; the specification's messages {:?} are {}", fi, short_hex(&fs.got), f.emit, short_hex(&fwant)),
+                                || fdetail(json!({"received": short_hex(&fs.got), "timed_out": fs.timed_out})));
+                        }
+                    }
+                    _ => {
+                        rep.violation_with(format!("socks5:tun-flow-none:{}", class),
+                            format!("the client's datagram {} is the first of its source: the specification has the forwarder open an association for it, no handshake reached the SOCKS5 server ({})", fi, obs.note),
+                            || fdetail(json!(null)));
+                    }
+                }
+            }
+            // ... and the datagram reaches the relay in the RFC 1928 section 7 form, addressed to the flow's destination
+            if b.flows.iter().enumerate().all(|(fi, f)| !f.opens || obs.flow_served.get(fi).and_then(|x| x.as_ref()).map(|x| x.connected).unwrap_or(false)) {
+                for (fi, f) in b.flows.iter().enumerate() {
+                    rep.eval();
+                    let got = obs.flow_relayed.get(fi).cloned().flatten();
+                    if got.as_deref() != Some(&f.relayed[..]) {
+                        rep.violation_with(format!("socks5:tun-flow-relay:{}", class),
+                            format!("the client's datagram {} reached the relay as {} ; the specification: {}", fi, got.as_deref().map(short_hex).unwrap_or_else(|| "nothing".into()), short_hex(&f.relayed)),
+                            || json!({"kind": "tunnel-flow", "proto": pname, "scn": b.v["scn"], "flow": fi, "expected": short_hex(&f.relayed), "observed": got.as_deref().map(short_hex), "request": o.clone()}));
+                        break;
+                    }
+                    n_relayed += 1;
+                }
+            }
+            n_flows += b.flows.iter().filter(|f| f.opens).count() as u64;
             if expect_ok && !udp {
                 if obs.down != b.down {
                     rep.violation_with(format!("socks5:tun-down:{}:bnd-{}", class, bnd),
@@ -1309,7 +1629,12 @@ fn tunnel_level(rt: &tokio::runtime::Runtime, behs: &[Beh], relay_port: u16, rep
             }
         }
     }
+    if stale_total.get() > 0 {
+        rep.note(format!("tunnel level: {} connection(s) left over from an earlier scenario were dropped by the scripted server", stale_total.get()));
+    }
     rep.count("tunnel_level_requests", n);
+    rep.count("tunnel_level_flow_handshakes", n_flows);
+    rep.count("tunnel_level_flow_datagrams_relayed", n_relayed);
     rep.count("tunnel_level_not_expressible", skipped);
     rep.count("tunnel_level_too_long_for_http1", too_long);
 }
